@@ -132,6 +132,16 @@ def replay(arg):
                 mism.append(("selection-scene", "get(scene=%d) holds %d rows, one scene has %d row pairs" % (sc_, len(sel), npairs), rep))
             if len(sel) and an.get_num_tp(df=sel) != table["tp"]:
                 mism.append(("selection-scene", "scene %d: num_tp %d, specification %d" % (sc_, an.get_num_tp(df=sel), table["tp"]), rep))
+            # the counters' own keyword selections (scene 0 is a falsy value; an empty selection list selects nothing) agree with the
+            # counters applied to the selected rows, and with the specification's per-scene table (seeded C19_r10)
+            for nm_ in ("tp", "fp", "tn", "fn", "estimation", "ground_truth"):
+                f_ = getattr(an, "get_num_" + nm_)
+                kw_, df_ = f_(scene=sc_), (f_(df=sel) if len(sel) else 0)
+                if kw_ != df_ or (nm_ in ("tp", "fp") and kw_ != table[nm_]):
+                    mism.append(("selection-scene", "get_num_%s(scene=%d) = %d, on the selected rows %d%s" % (
+                        nm_, sc_, kw_, df_, ", specification %d" % table[nm_] if nm_ in ("tp", "fp") else ""), rep))
+                if f_(scene=[sc_]) != kw_:
+                    mism.append(("selection-scene", "get_num_%s(scene=[%d]) = %d, get_num_%s(scene=%d) = %d" % (nm_, sc_, f_(scene=[sc_]), nm_, sc_, kw_), rep))
             if npairs:
                 r_ = an.analyze(scene=sc_)
                 tot = int(r_.confusion_matrix.to_numpy().sum()) if r_.confusion_matrix is not None else 0
